@@ -19,7 +19,16 @@ var (
 
 // SemEq is semantic equality of two values: equal canonical dumps (nil and empty slices are
 // the same, times compare as instants).
-func SemEq(a, b any) bool { return Canon(a) == Canon(b) }
+func SemEq(a, b any) bool { return CanonValue(a) == CanonValue(b) }
+
+// CanonValue dumps a value without pointer-identity tracking: two structures with equal
+// contents are equal whether or not they share sub-objects (cycles are cut by the depth limit).
+func CanonValue(v any) string {
+	var sb strings.Builder
+	c := canon{sb: &sb, seen: map[uintptr]int{}, noShare: true}
+	c.walk(reflect.ValueOf(v), 0)
+	return sb.String()
+}
 
 // Canon returns a canonical textual dump of the full concrete state reachable from v,
 // including unexported fields. Map keys are sorted; func values, context.Context and
@@ -33,8 +42,9 @@ func Canon(v any) string {
 }
 
 type canon struct {
-	sb   *strings.Builder
-	seen map[uintptr]int
+	sb      *strings.Builder
+	seen    map[uintptr]int
+	noShare bool
 }
 
 func (c *canon) walk(v reflect.Value, depth int) {
@@ -69,6 +79,11 @@ func (c *canon) walk(v reflect.Value, depth int) {
 			return
 		}
 		p := v.Pointer()
+		if c.noShare {
+			c.sb.WriteByte('&')
+			c.walk(v.Elem(), depth+1)
+			return
+		}
 		if id, ok := c.seen[p]; ok {
 			// shared or cyclic pointer: name it by first-visit order (structure, not address)
 			fmt.Fprintf(c.sb, "^%d", id)
@@ -115,7 +130,7 @@ func (c *canon) walk(v reflect.Value, depth int) {
 		idx := make([]int, len(keys))
 		for i, k := range keys {
 			var sb strings.Builder
-			cc := canon{sb: &sb, seen: c.seen}
+			cc := canon{sb: &sb, seen: c.seen, noShare: c.noShare}
 			cc.walk(k, depth+1)
 			ks[i] = sb.String()
 			idx[i] = i
